@@ -298,6 +298,12 @@ M("C11", "index-adopts-child-list", TU, "            for k, v in thisway.items()
 M("C11", "donor-index-edited", TB, "            if not options:\n                return create_node(global_context, ty, i.gengy_synthesis_context, dependent_values)",
   "            if options and source_material[0] in options:\n                options.remove(source_material[0])\n            if not options:\n                return create_node(global_context, ty, i.gengy_synthesis_context, dependent_values)", "C11.R4")
 M("C11", "new-typechecking-only-use", "geneticengine/grammar/utils.py", "def is_builtin_class_instance(obj):\n    return obj.__class__.__module__ == \"builtins\"", "def is_builtin_class_instance(obj):\n    return obj.__class__.__module__ == \"builtins\" and not isinstance(obj, GengyList)", "C11.R2")
+M("C11", "fold-nodes-not-counted", TU, "            number_of_nodes += abs_adjust + nodes\n", "            number_of_nodes += abs_adjust\n", "C11.R5")
+M("C11", "fold-depth-sum-instead-of-max", TU, "            distance_to_term = max(distance_to_term, dist + abs_adjust + list_adjust)", "            distance_to_term = distance_to_term + dist + abs_adjust + list_adjust", "C11.R5")
+M("C11", "fold-depth-no-edge", TU, "            list_adjust = 0 if isinstance(c, list) else 1\n", "            list_adjust = 0\n", "C11.R5")
+M("C11", "fold-weighted-omits-own-depth", TU, "    if not is_list:\n        weighted_number_of_nodes += distance_to_term\n", "", "C11.R5")
+M("C11", "fold-stores-other-than-returned", TU, "    i.gengy_nodes = number_of_nodes\n", "    i.gengy_nodes = number_of_nodes + 1\n", "C11.R5")
+M("C11", "twin-fold-sum-comprehension", TU, "            weighted_number_of_nodes += weighted_nodes\n", "            weighted_number_of_nodes = weighted_number_of_nodes + weighted_nodes\n", "", expect="silent")
 M("C11", "twin-relabel-kw-flag", TU, "                c,\n                g,\n                isinstance(c, list),\n            )", "                c,\n                g,\n                is_list=isinstance(c, list),\n            )", "", expect="silent")
 M("C11", "twin-index-extend-copy", TU, "                types_this_way[k].extend(v)", "                types_this_way[k].extend(list(v))", "", expect="silent")
 
